@@ -26,7 +26,7 @@ def plan(tier):
 def cases():
     op = st.one_of(
         st.tuples(st.just("alloc"), st.integers(0, 3), st.integers(1, 31), st.integers(1, 3000), st.integers(0, 1)),
-        st.tuples(st.just("alloc"), st.integers(0, 3), st.integers(1, 31), st.integers(1, 3000), st.integers(0, 1)),
+        st.tuples(st.just("alloc"), st.integers(0, 3), st.integers(1, 31), st.integers(0, 3000) | st.sampled_from([0, 0, 1]), st.integers(0, 1)),
         st.tuples(st.just("fill"), st.integers(0, 40), st.integers(0, 100), st.just(0), st.just(0)),
         st.tuples(st.just("close"), st.integers(0, 40), st.just(0), st.just(0), st.just(0)),
         st.tuples(st.just("abort"), st.integers(0, 40), st.just(0), st.just(0), st.just(0)),
@@ -96,6 +96,11 @@ def run_case(case, ctx):
                 if not cand:
                     continue
                 u = cand[op[1] % len(cand)]
+                if u["size"] == 0:
+                    u["w"] = True          # nothing to write into an empty share (zero-length writes are not part of the protocol)
+                    classes.add("zero-size-share")
+                    if kind == "fill":
+                        continue
                 if kind != "fill" or not u.get("w"):
                     u["idle"] = 0          # a call really reaches the server and restarts its inactivity timer
                 try:
